@@ -401,7 +401,8 @@ func (tr *Addition) Close() {
 // Commit commits the changes to the database, releasing the lock.
 func (tr *Addition) Commit() error {
 	if len(tr.newTables) == 0 {
-		// Nothing to be done.
+		// Nothing to commit, but Commit still releases the lock.
+		tr.Close()
 		return nil
 	}
 
